@@ -1018,19 +1018,19 @@ Proof.
   { rewrite (used_from_split_at _ a3 (i - (2 ^ N.succ h' - 1)) i) by lia.
     rewrite Hroot. f_equal; [|cbn [app]; f_equal].
     - rewrite <- Hu1.
-      replace (N.to_nat (i - (i - (2 ^ N.succ h' - 1)))) with (N.to_nat (2 * 2 ^ h' - 1)) by lia.
-      apply used_from_ext. intros j Hj. apply Hleft. lia.
-    - rewrite <- Hu3. f_equal. lia. }
+      replace (N.to_nat (i - (i - (2 ^ N.succ h' - 1)))) with (N.to_nat (2 * 2 ^ h' - 1)) by (clear - S5 S6 Hp'; lia).
+      apply used_from_ext. intros j Hj. apply Hleft. clear - Hj S5 S6 Hp'. lia.
+    - rewrite <- Hu3. f_equal. clear - S5 S6 Hp'. lia. }
   split. { intros j Hj. rewrite Hleft by lia. apply Hfa1. lia. }
   split. { intros j Hj. rewrite Hfb3, Hfb2 by exact Hj. apply Hfb1. exact Hj. }
   split. { intros _. rewrite Hroot. discriminate. }
   intros x Hx Hxn j Hj. unfold in_sub in Hx.
   destruct (N.eq_dec x i) as [->|Hxi]. { rewrite Hroot in Hxn. discriminate. }
   destruct (N.lt_ge_cases x i) as [Hlt|Hgt].
-  - assert (Hxl : in_sub h' (i - 2 ^ h') x) by (unfold in_sub; lia).
+  - assert (Hxl : in_sub h' (i - 2 ^ h') x) by (unfold in_sub; clear - Hx Hlt S1 S2; lia).
     destruct (subtree_contains h' _ x (node_left _ _ Hnode) Hxl) as (_ & T1 & T2 & _).
-    rewrite Hleft by lia. apply (Hsh1 x Hxl); [|exact Hj]. rewrite <- Hleft by lia. exact Hxn.
-  - assert (Hxr : in_sub h' (i + 2 ^ h') x) by (unfold in_sub; lia).
+    rewrite Hleft by (clear - Hj T2 S2; lia). apply (Hsh1 x Hxl); [|exact Hj]. rewrite <- Hleft by exact Hlt. exact Hxn.
+  - assert (Hxr : in_sub h' (i + 2 ^ h') x) by (unfold in_sub; clear - Hx Hgt Hxi S3 S4; lia).
     apply (Hsh3 x Hxr Hxn j Hj).
 Qed.
 
@@ -1592,8 +1592,8 @@ Proof.
     assert (Hsz : 2 * 2 ^ h' - 1 = R).
     { subst h'. rewrite HR. rewrite <- N.pow_succ_r'. f_equal. f_equal. lia. }
     rewrite Hss', Hi'.
-    replace (2 ^ h' - (2 ^ h' - 1)) with 1 by lia.
-    replace (2 ^ h' + (2 ^ h' - 1)) with R by lia. rewrite Hsz.
+    replace (2 ^ h' - (2 ^ h' - 1)) with 1 by (clear - Hp'; lia).
+    replace (2 ^ h' + (2 ^ h' - 1)) with R by (clear - Hp' Hsz; lia). rewrite Hsz.
     subst c add. destruct (aget a i) eqn:E.
     - destruct Hins as (_ & _ & _ & _ & _ & Hroom); [congruence|]. exact Hroom.
     - unfold len, seg. pose proof (used_from_length_le (N.to_nat (R + 1 - 1)) a 1). lia. }
@@ -1602,7 +1602,7 @@ Proof.
   assert (Hanc' : forall hx x, node hx x -> h' < hx -> in_sub hx x i' -> x <= R -> aget a x <> None).
   { intros hx x Nx Hlt Hin HxR. apply (Hanc hx x Nx ltac:(lia)); [|exact HxR].
     destruct (subtree_contains hx x i' Nx Hin) as (_ & S1 & S2 & _).
-    rewrite (node_lowbit _ _ Hnode') in S1, S2. lia. }
+    rewrite (node_lowbit _ _ Hnode') in S1, S2. clear - S1 S2 Hlo' Hhi2. lia. }
   assert (Hadd' : add = true -> psorted a /\
      (forall p, in_sub h' i' p -> aget a p <> None -> key_at a p <> key) /\
      (forall p, p < i' - (2 ^ h' - 1) -> aget a p <> None -> key_at a p < key) /\
@@ -1612,11 +1612,11 @@ Proof.
     destruct (Hins Hu) as (_ & A1 & A2 & A3 & A4 & _).
     split; [exact A1|]. split; [|split].
     - intros p _ Hpu. destruct (N.lt_trichotomy p i) as [H|[H|H]].
-      + specialize (A3 p H Hpu). lia.
+      + specialize (A3 p H Hpu). clear - A3. lia.
       + subst p. exact A2.
-      + specialize (A4 p H Hpu). lia.
-    - intros p Hpl Hpu. apply A3; [lia|exact Hpu].
-    - intros p Hpl Hpu. apply A4; [lia|exact Hpu]. }
+      + specialize (A4 p H Hpu). clear - A4. lia.
+    - intros p Hpl Hpu. apply A3; [clear - Hpl Hlo'; lia|exact Hpu].
+    - intros p Hpl Hpu. apply A4; [clear - Hpl Hhi2; lia|exact Hpu]. }
   specialize (RT Hanc' Hadd').
   destruct (compact (fuel_of R) a R (i' + 2 ^ h' - 1) ss' key val add) as [a1 fu].
   destruct (redis (fuel_of R) R key val ss' i' (a1, fu + 1, negb (fu =? i' + 2 ^ h' - 1 - ss')))
